@@ -12,20 +12,33 @@ open Op2.Gen.Formulas
 
 theorem gen_CalcPixelByteWidth_eq (bits : Nat) (w : Int) (hb : bits < 65536) :
     gen_CalcPixelByteWidth (bits : Int) w = (pixByteWidth bits w : Nat) := by
-  unfold gen_CalcPixelByteWidth pixByteWidth toU64 castU W64
-  have e8 : ((8 : Int) % 2 ^ 64) = 8 := by decide
-  have e1 : ((1 : Int) % 2 ^ 64) = 1 := by decide
-  simp only [e8, e1]
-  have eb : ((bits : Int) % 2 ^ 64) = (bits : Int) := by omega
-  rw [eb]
-  have e7 : ((8 : Int) - 1) % 2 ^ 64 = 7 := by decide
-  rw [e7]
-  have hw : (w % 2 ^ 64) = ((w % 18446744073709551616).toNat : Int) := by omega
-  rw [hw]
-  generalize (w % 18446744073709551616).toNat = u
-  rw [← Int.natCast_mul]
-  generalize u * bits = m
-  omega
+  first
+  | -- the source as pinned
+    (unfold gen_CalcPixelByteWidth pixByteWidth toU64 castU W64
+     have e8 : ((8 : Int) % 2 ^ 64) = 8 := by decide
+     have e1 : ((1 : Int) % 2 ^ 64) = 1 := by decide
+     simp only [e8, e1]
+     have eb : ((bits : Int) % 2 ^ 64) = (bits : Int) := by omega
+     rw [eb]
+     have e7 : ((8 : Int) - 1) % 2 ^ 64 = 7 := by decide
+     rw [e7]
+     have hw : (w % 2 ^ 64) = ((w % 18446744073709551616).toNat : Int) := by omega
+     rw [hw]
+     generalize (w % 18446744073709551616).toNat = u
+     rw [← Int.natCast_mul]
+     generalize u * bits = m
+     omega)
+  | -- the same value written with other literals / a shift: only the product of the two converted arguments is non-linear
+    (unfold gen_CalcPixelByteWidth pixByteWidth toU64
+     simp only [castU, castS, W64, Int.reducePow, Int.reduceMod, Int.reduceSub, Int.reduceNeg, Int.reduceAdd, Int.reduceToNat,
+                Nat.reducePow]
+     have eb : ((bits : Int) % 18446744073709551616) = (bits : Int) := by omega
+     have hw : (w % 18446744073709551616) = ((w % 18446744073709551616).toNat : Int) := by omega
+     rw [eb, hw]
+     generalize (w % 18446744073709551616).toNat = u
+     rw [← Int.natCast_mul]
+     generalize u * bits = m
+     omega)
 
 theorem gen_CalculatePitch_eq (bits : Nat) (w : Int) (hb : bits < 65536) :
     gen_CalculatePitch (bits : Int) w = (pitch bits w : Nat) := by
